@@ -39,3 +39,19 @@ CLAIMS["C19"] = {
 H("C19", "css/counters", "VxH_C19_pad_negative", reach=["rendered"], bounds="decimal digits, pad 0..5, negative suffix '' or ')', value in [-120,120]")
 H("C19", "css/counters", "VxH_C19_range_fallback", reach=["in-range", "out-of-range"], bounds="explicit range [lo,hi] within [-6,6], value in [-8,8]")
 H("C19", "css/counters", "VxH_C19_cycles", reach=["terminated"], bounds="quick: 2 styles (thorough: 3), each fixed or extends one of the styles, decimal or a missing name, fallback likewise; value 0..9")
+H("C19", "css/counters", "VxH_C19_pad_nosign", reach=["rendered", "fixed-out-of-range"], bounds="cyclic(2 symbols) or fixed(first=-3, 4 symbols), pad 0..4, value in [-6,6]")
+
+# ---- C17 transforms ----
+ASSUMPTIONS["C17"] = [
+    "real mode: float32/float64 arithmetic is modelled as exact real arithmetic (QF_NRA); rounding error, overflow to Inf, NaN and -0 are outside the claim",
+    "math.Sin/Cos/Tan are uninterpreted functions (the same symbol in code and oracle), so only *which* trigonometric value lands in which matrix slot is decided",
+]
+CLAIMS["C17"] = {
+    "text": "For fully symbolic 2x3 affine matrices and arguments the solver shows (over the reals) associativity, identity, Apply homomorphism, two-sided inverse iff det != 0, in-place operations = right multiplication by the constructor, and constructors / CSS / SVG transform functions = the specification matrices. One path per law; no bound on magnitudes.",
+    "design_ref": "DESIGN.md section 4 C17",
+    "note": "Trusted: symgo, z3 nlsat. Real-mode abstraction of floats; trigonometric functions uninterpreted. Transform lists of at most 2 functions in the CSS harness; SVG transform text is parsed from a fixed set of spellings with symbolic numbers.",
+}
+H("C17", "matrix", "VxH_C17_group", mode="real", reach=["done"], bounds="three fully symbolic matrices, symbolic point")
+H("C17", "matrix", "VxH_C17_invert", mode="real", reach=["singular", "regular"], bounds="one fully symbolic matrix")
+H("C17", "matrix", "VxH_C17_inplace", mode="real", reach=["done"], bounds="fully symbolic matrix and arguments")
+H("C17", "matrix", "VxH_C17_ctor", mode="real", reach=["done"], bounds="fully symbolic arguments")
